@@ -14,6 +14,8 @@ type Limits struct {
 	MaxStr   int // maximum "ordinary" string length
 	MaxElems int // maximum container size
 	BigStr   bool // allow the occasional 256..70000 byte string
+	ASCII    bool // printable ASCII strings only (JSON-representable)
+	Finite   bool // finite floats only (JSON-representable)
 }
 
 var DefaultLimits = Limits{MaxStr: 40, MaxElems: 5, BigStr: true}
@@ -64,10 +66,13 @@ func drawString(rt *rapid.T, lim Limits, label string) string {
 		b := make([]byte, n)
 		for i := range b {
 			b[i] = fill + byte(i)
+			if lim.ASCII {
+				b[i] = 32 + (fill+byte(i))%95
+			}
 		}
 		return string(b)
 	}
-	if rapid.Bool().Draw(rt, label+".ascii") {
+	if lim.ASCII || rapid.Bool().Draw(rt, label+".ascii") {
 		return rapid.StringOfN(rapid.RuneFrom([]rune("abcXYZ019 _-=&<>/\"'{}")), n, n, -1).Draw(rt, label)
 	}
 	return string(rapid.SliceOfN(rapid.Byte(), n, n).Draw(rt, label))
@@ -87,9 +92,15 @@ func DrawValue(rt *rapid.T, t *Type, lim Limits, depth int, label string) any {
 		return drawIntKind(rt, KI32, label)
 	case KF32:
 		bits := rapid.OneOf(rapid.Uint32(), rapid.SampledFrom([]uint32{0, 0x80000000, 0x7f800000, 0xff800000, 0x7fc00000, 0x7fc00001, 0x3f800000, 0xbf800000, 1, 0x7f7fffff})).Draw(rt, label)
+		if f := math.Float32frombits(bits); lim.Finite && (f != f || math.IsInf(float64(f), 0)) {
+			return float32(1.5)
+		}
 		return math.Float32frombits(bits)
 	case KF64:
 		bits := rapid.OneOf(rapid.Uint64(), rapid.SampledFrom([]uint64{0, 1 << 63, 0x7ff0000000000000, 0xfff0000000000000, 0x7ff8000000000000, 0x7ff8000000000001, 0x3ff0000000000000, 0xbff0000000000000, 1, 0x7fefffffffffffff})).Draw(rt, label)
+		if f := math.Float64frombits(bits); lim.Finite && (f != f || math.IsInf(f, 0)) {
+			return float64(-2.25)
+		}
 		return math.Float64frombits(bits)
 	case KString:
 		return drawString(rt, lim, label)
@@ -133,7 +144,7 @@ func DrawValue(rt *rapid.T, t *Type, lim Limits, depth int, label string) any {
 		n := rapid.IntRange(0, max).Draw(rt, label+".n")
 		out := make([]KV, 0, n)
 		for i := 0; i < n; i++ {
-			k := DrawValue(rt, t.Key, Limits{MaxStr: 8, MaxElems: 2}, depth+1, label+".k")
+			k := DrawValue(rt, t.Key, Limits{MaxStr: 8, MaxElems: 2, ASCII: lim.ASCII, Finite: lim.Finite}, depth+1, label+".k")
 			dup := false
 			for _, kv := range out {
 				if Equal(t.Key, kv.K, k) {
